@@ -266,7 +266,8 @@ func (d *Dispenser) ArgErr() error {
 // SyntaxErr creates a generic syntax error which explains what was
 // found and what was expected.
 func (d *Dispenser) SyntaxErr(expected string) error {
-	msg := fmt.Sprintf("%s:%d - Syntax error: Unexpected token '%s', expecting '%s'", d.File(), d.Line(), d.Val(), expected)
+	file, line := d.errPos()
+	msg := fmt.Sprintf("%s:%d - Syntax error: Unexpected token '%s', expecting '%s'", file, line, d.Val(), expected)
 	return errors.New(msg)
 }
 
@@ -278,8 +279,24 @@ func (d *Dispenser) EOFErr() error {
 
 // Err generates a custom parse-time error with a message of msg.
 func (d *Dispenser) Err(msg string) error {
-	msg = fmt.Sprintf("%s:%d - Error during parsing: %s", d.File(), d.Line(), msg)
+	file, line := d.errPos()
+	msg = fmt.Sprintf("%s:%d - Error during parsing: %s", file, line, msg)
 	return errors.New(msg)
+}
+
+// errPos returns the file and line that an error at the cursor
+// should name: those of the current token or, if the cursor has
+// run past the last token (end of input), those of the last token
+// rather than line 0.
+func (d *Dispenser) errPos() (string, int) {
+	if n := len(d.tokens); n > 0 && d.cursor >= n {
+		last := d.tokens[n-1]
+		if last.File != "" {
+			return last.File, last.Line
+		}
+		return d.filename, last.Line
+	}
+	return d.File(), d.Line()
 }
 
 // Errf is like Err, but for formatted error messages
